@@ -1210,9 +1210,9 @@ class Molecule(UnitsManaged, Saveable, OpenSystem):
         Nm = self.get_number_of_modes()
         faclength = len(factor[1])
         
-        # energy conversion
+        # energy conversion (the list given by the caller is left as it is)
         val = self.convert_energy_2_internal_u(factor[0])
-        factor[0] = val
+        factor = [val, factor[1]]
         
         if  faclength != Nm:
             raise Exception("Expected "+str(Nm)+
